@@ -397,10 +397,14 @@ def history_stream(ctx, profile, seed, nhist, length, fp, shards=16):
             cmd = [ctx.harness_bin, 'gen', profile, str(seed * 1000 + s), str(per), str(length), ops, robs]
             procs.append((subprocess.Popen(cmd, stdout=subprocess.PIPE, stderr=subprocess.STDOUT, text=True), cmd))
         errs = []
-        for p, cmd in procs:
+        for s, (p, cmd) in enumerate(procs):
             out, _ = p.communicate(timeout=7200)
             if p.returncode != 0:
                 errs.append('%s -> %d: %s' % (' '.join(cmd), p.returncode, out[-400:]))
+            else:
+                # the generator's statistics line (JSON) -- used for the synthesised-state stream
+                js = [ln for ln in out.splitlines() if ln.startswith('{')]
+                open(os.path.join(d, 'stats.%d' % s), 'w').write(js[-1] if js else '{}')
         if errs:
             return None, 'harness gen failed: ' + '; '.join(errs)
         procs = []
@@ -456,6 +460,29 @@ def run_driver_sharded(ctx, ops, out, shards=16):
             os.unlink(of.name)
             os.unlink(pf)
     return err
+
+
+SYNTH = 'synth'   # name of the synthesised-state stream (profile `synth` of the harness generator)
+
+
+def synth_statistics(trs):
+    """sum the generator statistics of the shards of the synthesised-state stream: distribution of
+    the synthesised states, outcomes of the follow-up operations, notable events"""
+    tot = {}
+    for (opsf, robs, mobs) in trs:
+        f = os.path.join(os.path.dirname(opsf), 'stats.' + opsf.rsplit('.', 1)[1])
+        try:
+            d = json.load(open(f)).get('synth', {})
+        except (OSError, ValueError):
+            continue
+        for k, v in d.items():
+            tot[k] = tot.get(k, 0) + v
+    ok, err = tot.get('follow_tx:ok', 0), tot.get('follow_tx:err', 0)
+    out = {'follow_up_transactions': {'ok': ok, 'err': err, 'ok_percent': round(100.0 * ok / max(ok + err, 1), 1)},
+           'events': {k[6:]: v for k, v in sorted(tot.items()) if k.startswith('event:')},
+           'follow_up_operations': {k[7:]: v for k, v in sorted(tot.items()) if k.startswith('follow:')},
+           'states': {k[6:]: v for k, v in sorted(tot.items()) if k.startswith('state:')}}
+    return out
 
 
 def grid_stream(ctx, fp):
@@ -694,9 +721,20 @@ def check_property(ctx, pid, tier, seed, replay=None):
         else:
             streams.append(('profile:' + prof, trs))
 
+    if spec.get('synth'):
+        # synthesised-state stream (DESIGN.md 11.6): diff only, monitors off
+        sz = P.SYNTH_SIZES[tier]
+        trs, err = history_stream(ctx, 'synth', seed, sz['hist'], sz['len'], fp)
+        if err:
+            rp = write_replay(ctx, pid, 'gen', {'kind': 'stream-failure', 'error': err})
+            violations.append((rp, True, err[:200]))
+        else:
+            streams.append((SYNTH, trs))
+
     if spec.get('probe'):
         # dry-run probes on clones of every visited world (harness `probe`), all shards in parallel
-        todo = [(opsf, robs) for sname, trs in streams for (opsf, robs, mobs) in trs if not os.path.exists(robs + '.probe')]
+        todo = [(opsf, robs) for sname, trs in streams if sname != SYNTH
+                for (opsf, robs, mobs) in trs if not os.path.exists(robs + '.probe')]
         procs = []
         for opsf, robs in todo:
             pf = open(robs + '.probe.tmp', 'w')
@@ -715,9 +753,14 @@ def check_property(ctx, pid, tier, seed, replay=None):
         all_exp = []
         st = {'histories': 0, 'ops': 0, 'ok': 0, 'err': 0, 'first_diffs': 0, 'relevant_diffs': 0,
               'opkinds': {}, 'monitor_checks': 0}
+        diff_only = (sname == SYNTH)
+        if diff_only:
+            st['monitors'] = 'not run (synthesised start states)'
+            st['synthesiser'] = synth_statistics(trs)
         for (opsf, robs, mobs) in trs:
-            probes = (robs + '.probe') if (spec.get('probe') and os.path.exists(robs + '.probe')) else None
-            res = obsparse.compare_and_monitor(opsf, robs, mobs, pid, spec, M, known, probes=probes)
+            probes = (robs + '.probe') if (spec.get('probe') and not diff_only and os.path.exists(robs + '.probe')) else None
+            res = obsparse.compare_and_monitor(opsf, robs, mobs, pid, spec, M, known, probes=probes,
+                                               run_monitors=not diff_only)
             for k in ('histories', 'ops', 'ok', 'err', 'first_diffs', 'relevant_diffs', 'monitor_checks'):
                 st[k] += res[k]
             for k, v in res['opkinds'].items():
@@ -748,16 +791,21 @@ def check_property(ctx, pid, tier, seed, replay=None):
             violations.append((rp, False, 'monitor: ' + mv['message'][:200]))
         elif all_rel:
             dv = all_rel[0]
-            extra = violation_search(ctx, pid, dv)
+            # no violation search from a synthesised start state (a property failure found there would
+            # not be a failure on a reachable world): reported as a plain correspondence disagreement
+            extra = None if diff_only else violation_search(ctx, pid, dv)
             if extra:
                 rp = write_replay(ctx, pid, 'search', dict(dv, kind='violation-search', stream=sname, seed=seed,
                                   message=extra, how_to_replay='./check %s --replay <this file>' % pid))
                 violations.append((rp, False, 'violation search: ' + extra[:200]))
             else:
+                note = ('model and implementation disagree on a history that starts from a synthesised state '
+                        '(poke_* operations, PROTOCOL.md 3.4); this stream is diff-only: the property monitors and '
+                        'the violation search are not run on it (DESIGN.md 11.6)') if diff_only else \
+                       ('model and implementation disagree; the property monitors and the violation '
+                        'search found no input on which the property itself fails')
                 rp = write_replay(ctx, pid, 'corr', dict(dv, kind='correspondence', stream=sname, seed=seed,
-                                  theorems_no_longer_tied=au['theorems'],
-                                  note='model and implementation disagree; the property monitors and the violation '
-                                       'search found no input on which the property itself fails'))
+                                  theorems_no_longer_tied=au['theorems'], note=note))
                 violations.append((rp, True, 'model/implementation disagreement at op %s: %s' % (dv.get('op_index'), dv.get('op'))))
         cov['streams'][sname] = st
 
@@ -765,7 +813,7 @@ def check_property(ctx, pid, tier, seed, replay=None):
         t1 = time.time()
         files = []
         for sname, trs in streams:
-            sel = trs if (tier == 'thorough' or not sname.startswith('profile:')) else trs[:4]
+            sel = trs if (tier == 'thorough' or not (sname.startswith('profile:') or sname == SYNTH)) else trs[:4]
             files += [opsf for (opsf, robs, mobs) in sel]
         cov['model_coverage'] = model_coverage(ctx, files, sample=(1 if tier == 'thorough' else 6))
         cov['model_coverage']['wall_s'] = round(time.time() - t1, 1)
@@ -846,7 +894,8 @@ def replay(ctx, pid, path):
     mf = tmp + '.model'
     open(rf, 'w').write(rust)
     open(mf, 'w').write(model)
-    res = obsparse.compare_and_monitor(tmp, rf, mf, pid, P.PROPS.get(pid) or P.PENDING[pid], M, load_known(ctx).get('findings', []))
+    res = obsparse.compare_and_monitor(tmp, rf, mf, pid, P.PROPS.get(pid) or P.PENDING[pid], M, load_known(ctx).get('findings', []),
+                                       run_monitors=(data.get('stream') != SYNTH))
     for mv in res['monitor_violations']:
         ctx.say('MONITOR: ' + mv['message'])
     for dv in res['relevant']:
